@@ -31,9 +31,13 @@ const A1S: [A1; 5] = [A1::None, A1::Ignore, A1::KeyEq, A1::KeyNonEq, A1::By];
 struct FA {
     eq: A1,
     ord: A1,
+    /// `#[partial_eq(..)]` (only with a co-derived PartialEq and next to an eq / ord key or by): the comparator `==` really uses
+    peq: A1,
+    /// `#[partial_ord(..)]` (only with the list Eq, PartialEq, PartialOrd, Ord next to `#[ord(key = <Eq, Ord value>)]`)
+    pord: A1,
 }
 impl FA {
-    const NONE: FA = FA { eq: A1::None, ord: A1::None };
+    const NONE: FA = FA { eq: A1::None, ord: A1::None, peq: A1::None, pord: A1::None };
 }
 
 #[derive(Clone, Copy, PartialEq, Eq, Debug)]
@@ -72,8 +76,8 @@ fn attr_text(ft: FT, fa: FA) -> Option<String> {
             A1::KeyEq => format!("#[{name}(key = {eq_key})]"),
             A1::KeyNonEq => format!("#[{name}(key = {non_eq_key})]"),
             A1::By => {
-                if name == "eq" {
-                    "#[eq(by = |_, _| true)]".to_string()
+                if name == "eq" || name == "partial_eq" {
+                    format!("#[{name}(by = |_, _| true)]")
                 } else {
                     "#[ord(by = |_, _| ::core::cmp::Ordering::Equal)]".to_string()
                 }
@@ -82,7 +86,9 @@ fn attr_text(ft: FT, fa: FA) -> Option<String> {
     };
     let e = one("eq", fa.eq)?;
     let o = one("ord", fa.ord)?;
-    Some(format!("{e} {o}").trim().to_string())
+    let pe = one("partial_eq", fa.peq)?;
+    let po = one("partial_ord", fa.pord)?;
+    Some(format!("{pe} {e} {po} {o}").split_whitespace().collect::<Vec<_>>().join(" ").replace("key = $", "key = $ ").replace("$  ", "$ ").replace("by = |_, _|", "by = |_, _| ").replace("|  ", "| "))
 }
 
 /// reference: does this field force a rejection?  (precedence for Eq: eq, then ord)
@@ -90,7 +96,8 @@ fn field_rejects(ft: FT, fa: FA, gmode: GMode) -> bool {
     if fa.eq == A1::Ignore || fa.ord == A1::Ignore {
         return false;
     }
-    for a in [fa.eq, fa.ord] {
+    // precedence of the comparator `==` uses: partial_eq, eq, partial_ord, ord
+    for a in [fa.peq, fa.eq, fa.pord, fa.ord] {
         match a {
             A1::By | A1::KeyEq => return false,
             A1::KeyNonEq => return true,
@@ -111,7 +118,14 @@ fn gen(ch: &mut Ch, thorough: bool) -> Option<Case> {
     let mut dev = 0;
     for _ in 0..n {
         let ft = *ch.of(&[FT::U8, FT::F32, FT::T]);
-        let fa = FA { eq: *ch.of(&A1S), ord: *ch.of(&A1S) };
+        let mut fa = FA { eq: *ch.of(&A1S), ord: *ch.of(&A1S), peq: A1::None, pord: A1::None };
+        let custom = |a: A1| matches!(a, A1::KeyEq | A1::KeyNonEq | A1::By);
+        if ft != FT::T && fa.eq != A1::Ignore && fa.ord != A1::Ignore && (custom(fa.eq) || custom(fa.ord)) {
+            fa.peq = *ch.of(&[A1::None, A1::KeyEq, A1::KeyNonEq, A1::By]);
+        }
+        if ft == FT::U8 && fa.ord == A1::KeyEq && fa.eq == A1::None && fa.peq == A1::None {
+            fa.pord = *ch.of(&[A1::None, A1::KeyEq, A1::KeyNonEq]);
+        }
         attr_text(ft, fa)?;
         if fa != FA::NONE {
             dev += 1;
@@ -132,7 +146,18 @@ fn gen(ch: &mut Ch, thorough: bool) -> Option<Case> {
     if with_partial_eq && gmode != GMode::Default {
         return None;
     }
+    if fields.iter().any(|f| f.1.peq != A1::None || f.1.pord != A1::None) && !with_partial_eq {
+        return None;
+    }
+    let with_ord = fields.iter().any(|f| f.1.pord != A1::None);
+    // Ord / PartialOrd are then derived as well: every field must be orderable through its attributes or its type
+    if with_ord && fields.iter().any(|f| f.0 != FT::U8 || matches!(f.1.ord, A1::KeyNonEq | A1::Ignore) || f.1.eq != A1::None && f.1.ord == A1::None) {
+        return None;
+    }
     let with_hash = ch.flag();
+    if with_hash && with_ord {
+        return None;
+    }
     if with_hash && (!with_partial_eq || has_t || (n > 1 && dev > 1)) {
         return None;
     }
@@ -177,7 +202,8 @@ fn program(c: &Case) -> (String, String) {
         GMode::Empty => "Eq(bound())".to_string(),
         GMode::PartialEqOnly => "Eq(bound(T: ::core::cmp::PartialEq))".to_string(),
     };
-    let list = if c.with_hash { format!("{eq_arg}, PartialEq, Hash") } else if c.with_partial_eq { format!("{eq_arg}, PartialEq") } else { eq_arg };
+    let with_ord = c.fields.iter().any(|f| f.1.pord != A1::None);
+    let list = if with_ord { format!("{eq_arg}, PartialEq, PartialOrd, Ord") } else if c.with_hash { format!("{eq_arg}, PartialEq, Hash") } else if c.with_partial_eq { format!("{eq_arg}, PartialEq") } else { eq_arg };
     let head = match c.entry {
         Entry::Attr => format!("#[derive_ex({list})]"),
         Entry::Derive => format!("#[derive(Ex)]\n#[derive_ex({list})]"),
@@ -193,7 +219,7 @@ fn program(c: &Case) -> (String, String) {
 
 pub fn run(ctx: &Ctx, rep: &mut Report) {
     let thorough = ctx.tier.is_thorough();
-    rep.rule = "terminal state = (container in {tuple struct, named struct, enum variant}, 1..3 fields each of type {u8 (Eq), f32 (PartialEq only), T} with an `eq` and an `ord` attribute each in {absent, ignore, key yielding Eq, key yielding non-Eq, by}, bound mode for generic types in {default, Eq(bound()), Eq(bound(T: PartialEq))}, PartialEq hand-written or co-derived, entry point); every case compiled metadata-only by real rustc; distinct by program text; non-trivial = at least one attribute or a non-Eq / generic field".into();
+    rep.rule = "terminal state = (container in {tuple struct, named struct, enum variant}, 1..3 fields each of type {u8 (Eq), f32 (PartialEq only), T} with an `eq` and an `ord` attribute each in {absent, ignore, key yielding Eq, key yielding non-Eq, by} (plus, with a co-derived PartialEq, a `partial_eq` key / by and, with Ord + PartialOrd co-derived, a `partial_ord` key: the comparators `==` prefers), by}, bound mode for generic types in {default, Eq(bound()), Eq(bound(T: PartialEq))}, PartialEq hand-written or co-derived, entry point); every case compiled metadata-only by real rustc; distinct by program text; non-trivial = at least one attribute or a non-Eq / generic field".into();
     rep.assumptions = vec!["reference: reject iff some field that takes part in equality (not ignored, not `by`) has a non-Eq effective component (key value, else the field type; a bare T counts as Eq only under the default T: Eq bound)".into(), "accept = rustc reports no error for the case; reject = at least one error attributed to the case".into()];
     let mut cases = Vec::new();
     if let Some(p) = &ctx.replay {
@@ -226,7 +252,10 @@ pub fn run(ctx: &Ctx, rep: &mut Report) {
         if got_reject {
             rep.outcome(&format!("rustc:{}", r.codes()));
         }
-        if reject != got_reject {
+        // with a `partial_eq` / `partial_ord` attribute next to an `eq` / `ord` one the statement is used in its stated
+        // direction only (compiles => every compared component is Eq): refusing such a type is not an alarm
+        let extra_attr = c.fields.iter().any(|f| f.1.peq != A1::None || f.1.pord != A1::None);
+        if reject != got_reject && !(extra_attr && !reject) {
             let mut atoms = BTreeSet::new();
             atoms.insert(format!("entry={}", c.entry.name()));
             atoms.insert(format!("gmode={:?}", c.gmode));
